@@ -93,6 +93,33 @@ theorem C24_level_unique (l l₁ l₂ : List Endpoint) (h₁ : SortedDescOf l₁
   obtain ⟨m₂, q₂, b₂⟩ := C24_select_best l l₂ h₂ policy mode e₂ s₂
   exact Nat.le_antisymm (b₂ e₁ m₁ q₁) (b₁ e₂ m₂ q₂)
 
+/-- order independence of the whole function: the order in which the server
+    lists its endpoints (any permutation `m` of `l`) and the sort used (any two
+    admissible ones) change neither whether an endpoint is found nor its level -/
+theorem C24_input_order_irrelevant (sort₁ sort₂ : List Endpoint → List Endpoint)
+    (h₁ : ∀ l, SortedDescOf (sort₁ l) l) (h₂ : ∀ l, SortedDescOf (sort₂ l) l)
+    (l m : List Endpoint) (hp : l.Perm m) (policy : Bytes) (mode : Nat) :
+    (selectWith sort₁ l policy mode).map (·.level) = (selectWith sort₂ m policy mode).map (·.level) := by
+  obtain ⟨b₁, n₁⟩ := C24_selectWith sort₁ h₁ l policy mode
+  obtain ⟨b₂, n₂⟩ := C24_selectWith sort₂ h₂ m policy mode
+  cases r₁ : selectWith sort₁ l policy mode with
+  | none =>
+    have : selectWith sort₂ m policy mode = none :=
+      n₂.mpr (fun e he => (n₁.mp r₁) e (hp.mem_iff.mpr he))
+    rw [this]
+  | some e₁ =>
+    cases r₂ : selectWith sort₂ m policy mode with
+    | none =>
+      exfalso
+      obtain ⟨m₁, q₁, _⟩ := b₁ e₁ r₁
+      exact (n₂.mp r₂) e₁ (hp.mem_iff.mp m₁) q₁
+    | some e₂ =>
+      obtain ⟨m₁, q₁, x₁⟩ := b₁ e₁ r₁
+      obtain ⟨m₂, q₂, x₂⟩ := b₂ e₂ r₂
+      simp only [Option.map_some]
+      congr 1
+      exact Nat.le_antisymm (x₂ e₁ (hp.mem_iff.mp m₁) q₁) (x₁ e₂ (hp.mem_iff.mpr m₂) q₂)
+
 /-- the sort the driver uses is an admissible one, so every theorem above
     applies to the model the correspondence run executes -/
 theorem C24_driver_sort_admissible (l : List Endpoint) : SortedDescOf (sortDesc l) l :=
